@@ -143,12 +143,83 @@ static void op_bn_rand_mod(int argc, char **argv) {
 	bn_out(a); fputc('\n', OUT);
 }
 
+/* bn_rand_st <seedhex> <sign 0|1> <bits> : bn_rand, then the next 16 bytes of the generator (the state after the call is observable) */
+static void op_bn_rand_st(int argc, char **argv) {
+	if (argc < 4) { fprintf(OUT, "bad-args\n"); return; }
+	bn_t a; int caught = 0;
+	int n = bytes_parse(B1, MAXB, argv[1]);
+	core_get()->seeded = 0;
+	rand_seed(B1, n);
+	bn_null(a); bn_new(a);
+	RLC_TRY { bn_rand(a, parse_int(argv[2]) ? RLC_NEG : RLC_POS, parse_int(argv[3])); } RLC_CATCH_ANY { caught = 1; }
+	if (take_err() || caught) { fprintf(OUT, "err"); } else { bn_out(a); }
+	rand_bytes(B2, 16);
+	fprintf(OUT, " n:"); bytes_print(B2, 16); fputc('\n', OUT);
+}
+
+/* fp_rand_ctx <id> : the prime, RLC_FP_BITS and RLC_FP_DIGS of a parameter identifier (skip when the build does not support it) */
+static void op_fp_rand_ctx(int argc, char **argv) {
+	if (argc < 2) { fprintf(OUT, "bad-args\n"); return; }
+	int caught = 0;
+	RLC_TRY { fp_param_set(parse_int(argv[1])); } RLC_CATCH_ANY { caught = 1; }
+	if (take_err() || caught) { fprintf(OUT, "skip\n"); return; }
+	fprintf(OUT, "p="); raw_print(fp_prime_get(), RLC_FP_DIGS, 0);
+	fprintf(OUT, " bits=%d digs=%d\n", (int)RLC_FP_BITS, (int)RLC_FP_DIGS);
+}
+
+/* fp_rand <seedhex> <id> <p> <bits> <digs> : select the prime, seed, fp_rand; prints the context the library really used (compared with
+ * the arguments by the driver), the raw digit vector and the next 16 bytes of the generator */
+static void op_fp_rand(int argc, char **argv) {
+	if (argc < 3) { fprintf(OUT, "bad-args\n"); return; }
+	int caught = 0;
+	fp_t a;
+	RLC_TRY { fp_param_set(parse_int(argv[2])); } RLC_CATCH_ANY { caught = 1; }
+	if (take_err() || caught) { fprintf(OUT, "skip\n"); return; }
+	int n = bytes_parse(B1, MAXB, argv[1]);
+	core_get()->seeded = 0;
+	rand_seed(B1, n);
+	fp_null(a); fp_new(a);
+	RLC_TRY { fp_rand(a); } RLC_CATCH_ANY { caught = 1; }
+	if (take_err() || caught) { fprintf(OUT, "err\n"); return; }
+	fprintf(OUT, "p="); raw_print(fp_prime_get(), RLC_FP_DIGS, 0);
+	fprintf(OUT, " bits=%d digs=%d a=", (int)RLC_FP_BITS, (int)RLC_FP_DIGS);
+	raw_print(a, RLC_FP_DIGS, 0);
+	rand_bytes(B2, 16);
+	fprintf(OUT, " n:"); bytes_print(B2, 16); fputc('\n', OUT);
+	fp_free(a);
+}
+
+#ifdef WITH_FB
+/* fb_rand <seedhex> <bits> <digs> | fb_rand_ctx : RLC_FB_BITS / RLC_FB_DIGS as the library has them, the raw digit vector, the next 16 bytes */
+static void op_fb_rand(int argc, char **argv) {
+	fprintf(OUT, "bits=%d digs=%d", (int)RLC_FB_BITS, (int)RLC_FB_DIGS);
+	if (argc >= 2 && strcmp(argv[0], "fb_rand") == 0) {
+		fb_t a; int caught = 0;
+		int n = bytes_parse(B1, MAXB, argv[1]);
+		core_get()->seeded = 0;
+		rand_seed(B1, n);
+		fb_null(a); fb_new(a);
+		RLC_TRY { fb_rand(a); } RLC_CATCH_ANY { caught = 1; }
+		if (take_err() || caught) { fprintf(OUT, " err\n"); return; }
+		fprintf(OUT, " a="); raw_print(a, RLC_FB_DIGS, 0);
+		rand_bytes(B2, 16);
+		fprintf(OUT, " n:"); bytes_print(B2, 16);
+		fb_free(a);
+	}
+	fputc('\n', OUT);
+}
+#define FB_RAND_OPS {"fb_rand", op_fb_rand}, {"fb_rand_ctx", op_fb_rand},
+#else
+#define FB_RAND_OPS
+#endif
+
 #include "ops_md2.inc"
 #include "ops_md3.inc"
 
 const op_t ops_md[] = {
 	{"md_map", op_md_map}, {"md_hmac", op_md_hmac}, {"md_kdf", op_md_kdf}, {"md_mgf", op_md_kdf},
 	{"md_xmd", op_md_xmd}, {"drbg", op_drbg}, {"bn_rand", op_bn_rand}, {"bn_rand_mod", op_bn_rand_mod},
+	{"bn_rand_st", op_bn_rand_st}, {"fp_rand_ctx", op_fp_rand_ctx}, {"fp_rand", op_fp_rand}, FB_RAND_OPS
 	MD2_OPS
 	MD3_OPS
 	{NULL, NULL}
